@@ -57,8 +57,6 @@ Definition str := list Z.
 Definition s_None : str := [78; 111; 110; 101].                         (* "None" *)
 Definition s_true : str := [116; 114; 117; 101].                        (* "true" *)
 Definition s_false : str := [102; 97; 108; 115; 101].                   (* "false" *)
-Definition s_Some_true : str := [83; 111; 109; 101; 40; 116; 114; 117; 101; 41].            (* "Some(true)" *)
-Definition s_Some_false : str := [83; 111; 109; 101; 40; 102; 97; 108; 115; 101; 41].       (* "Some(false)" *)
 
 Fixpoint str_eqb (a b : str) : bool :=
   match a, b with
@@ -478,7 +476,7 @@ Section Model.
     | Opt (N u) => Ok (match o with Some b => Some (bool_to_n u b) | None => None end)
     | Plain Bool => match o with Some b => Ok b | None => Panic OtherPanic end    (* "Should not cast None to bool" *)
     | Opt Bool => Ok o
-    | Plain Str => Ok (match o with None => s_None | Some true => s_Some_true | Some false => s_Some_false end)  (* {:?} *)
+    | Plain Str => Ok (match o with Some b => if b then s_true else s_false | None => s_None end)   (* repaired: map(to_string).unwrap_or("None") *)
     | Plain DT | Plain TD | Plain TM => Panic OtherPanic
     | Opt _ => Panic OtherPanic
     end.
